@@ -306,6 +306,37 @@ pub fn sys_lists(tier: Tier) -> Vec<Layout> {
             }
         }
     }
+    // several range-list fields of the same type that share their first range but differ later
+    // (overlapping fields are legal); also the same next to a plain field at the same start
+    for b in [16u32, 32, 64, 128, 24, 65] {
+        let mk = |name: &str, rs: Vec<(u32, u32)>, ty: FieldTy| Field {
+            name: name.into(),
+            kw_bit: false,
+            list: rs.len() > 1,
+            ranges: rs.iter().map(|(lo, hi)| Rng { lo: *lo, hi: *hi, short: false }).collect(),
+            array: None,
+            ty,
+            access: Access::RW,
+            arg_order: 0,
+            opt_path: 0,
+            huge: None,
+        };
+        out.push(lay(
+            b,
+            vec![
+                mk("p", vec![(0, 7)], uty(8)),
+                mk("q", vec![(0, 3), (8, 11)], uty(8)),
+                mk("r", vec![(0, 3), (12, 15)], uty(8)),
+                mk("s", vec![(0, 3), (b - 4, b - 1)], uty(8)),
+            ],
+        ));
+        out.push(lay(b, vec![mk("q", vec![(4, 5), (0, 1)], uty(4)), mk("r", vec![(4, 5), (2, 3)], uty(4)), mk("s", vec![(4, 5), (8, 9)], uty(4))]));
+        let mut a1 = mk("a", vec![(0, 1), (4, 5)], uty(4));
+        a1.array = Some(ArrayDecl { count: 2, stride: Some(8), colon: false });
+        let mut a2 = mk("b", vec![(0, 1), (6, 7)], uty(4));
+        a2.array = Some(ArrayDecl { count: 2, stride: Some(8), colon: false });
+        out.push(lay(b, vec![a1, a2]));
+    }
     dedup(out)
 }
 
@@ -331,6 +362,24 @@ pub fn sys_signed(tier: Tier) -> Vec<Layout> {
                 out.push(lay(b, vec![a2]));
             }
             if n + 2 <= b {
+                // list: N-1 bits + 1 bit, in both orders (a piece one bit narrower than the type)
+                for first_wide in [true, false] {
+                    let wide = Rng::new(0, n - 2);
+                    let one = Rng::bit(n);
+                    let f = Field {
+                        name: "sw".into(),
+                        kw_bit: false,
+                        list: true,
+                        ranges: if first_wide { vec![wide.clone(), one.clone()] } else { vec![one, wide] },
+                        array: None,
+                        ty: FieldTy::INat { bits: n },
+                        access: Access::RW,
+                        arg_order: 0,
+                        opt_path: 0,
+                        huge: None,
+                    };
+                    out.push(lay(b, vec![f]));
+                }
                 // list: high half first, one bit gap, ends below the top bit
                 let h = n / 2;
                 let f = Field {
@@ -522,6 +571,7 @@ pub fn corpus(prop: &str, tier: Tier, seed: u64) -> Vec<(usize, Layout)> {
                     let mut p = Profile::general();
                     p.default = DefaultMode::Never;
                     p.access = AccessMode::Mixed;
+                    p.overlap = k % 4 == 0; // overlapping writable fields: no builder, everything else unchanged
                     let mut l = if k % 2 == 0 { build_layout_on(&p, &mut src, b) } else { lay(b, vec![]) };
                     if k % 2 == 1 && k % 3 == 0 {
                         // `debug` next to the default, in both argument orders
